@@ -213,3 +213,13 @@ Proof.
   - rewrite run_ops_app. exact Eo.
   - rewrite E1, E2. exact Eo2.
 Qed.
+
+(** UpdateParams from anybody but the owner is rejected as a whole (paused or not) *)
+Theorem params_nonowner_rejected w h sender a b c d pz f funds :
+  w_hub w = Some h -> sender <> hc_creator (h_cfg h) ->
+  step w (OTx sender A_hub (WHub (HParams a b c d pz f)) funds) = (w, (false, [])).
+Proof.
+  intros Hw Hne. apply tx_root_rejected. intros e1 _. unfold call. rewrite N.eqb_refl.
+  cbn [w_hub set_env]. rewrite Hw. cbn [bind]. unfold hub_execute.
+  rewrite update_params_unauth; [reflexivity | exact Hne].
+Qed.
